@@ -654,6 +654,16 @@ func (e *Env) selectorOn(base tv, name string) tv {
 func (e *Env) index(x *EIdx) tv {
 	u := e.u
 	base := e.eval(x.X)
+	if sv, isSV := base.v.(*StructVal); isSV {
+		// a small array value: constant index selects the element
+		if at, isArr := types.Unalias(sv.T).Underlying().(*types.Array); isArr {
+			if lit, isLit := x.I.(*EInt); isLit && lit.Val.IsInt64() {
+				if k := lit.Val.Int64(); k >= 0 && int(k) < len(sv.Fields) {
+					return tv{sv.Fields[k], at.Elem()}
+				}
+			}
+		}
+	}
 	s, ok := base.v.(*Term)
 	if !ok {
 		e.fail("index on %s", exprString(x.X))
@@ -790,6 +800,28 @@ func (e *Env) callExpr(x *ECall) tv {
 			ts = SString
 		}
 		return tv{u.strOfBytes(e.st, b, ts), types.Typ[types.String]}
+	case "arrayof", "offsetof":
+		// arrayof(s): the contents of the backing array of a slice of scalars, as a
+		// ghost array indexed by position; offsetof(s): position of s[0] in it.
+		// s[i] == arrayof(s)[offsetof(s)+i].
+		r := e.eval(x.Args[0])
+		b, ok := r.v.(*Term)
+		if !ok || b.Sort != SSlice {
+			e.fail("%s(): slice expected", x.Fn)
+		}
+		if x.Fn == "offsetof" {
+			return tv{soff(b), types.Typ[types.Int]}
+		}
+		st, isSlice := types.Unalias(r.t).Underlying().(*types.Slice)
+		if !isSlice {
+			e.fail("arrayof(): slice type expected")
+		}
+		sort, scalar := u.sortOf(st.Elem())
+		if !scalar {
+			e.fail("arrayof(): slice of scalars expected")
+		}
+		m := u.heapGet(e.st, elemMapName(sort), sort)
+		return tv{Select(m, sarr(b)), nil}
 	case "constmap":
 		// constmap("KeySort", v): the ghost array mapping every key to v
 		ks, ok := x.Args[0].(*EStr)
